@@ -73,6 +73,10 @@ def run(ctx: Context) -> None:
     ctx.rule(r5_siblings)
     ctx.rule(r6_filters)
     ctx.rule(dtype_rule)
+    # non-negativity of the MSM objective rests on its shape: g.g, or g.W.g with W = diag(1 / mean_e (deviation)^2) - a reciprocal of a mean of squares is positive
+    # by construction, an algebraically "equal" expansion r^2 - 2 r E[x] + E[x^2] is not (cancellation can make it zero or negative).  Shared with C07-R3.
+    from . import c07
+    ctx.rule(c07.r3_msm)
 
 
 def r1_purity(ctx: Context) -> None:
